@@ -521,8 +521,7 @@ def runAct (st : St) (act : Act) : St :=
   | .raise s => if validSig s then raiseSig st s else st
   | .exit pid status =>
     if validPid pid then
-      if st.children.any (·.pid = pid) then
-        { st with children := st.children.map fun d => if d.pid = pid then { d with exited := true, status := status } else d }
+      if st.children.any (·.pid = pid) then st      -- a child exits once
       else { st with children := st.children ++ [{ pid := pid, exited := true, reaped := false, status := status }] }
     else st
   | .nop => st
